@@ -90,7 +90,9 @@ func incrementBytes(in []byte) []byte {
 	for i := len(rv) - 1; i >= 0; i-- {
 		rv[i] = rv[i] + 1
 		if rv[i] != 0 {
-			return rv // didn't overflow, so stop
+			// didn't overflow, so stop; the bytes after i wrapped
+			// around to 0x00 and are not part of the end key
+			return rv[:i+1]
 		}
 	}
 	return nil // overflowed
